@@ -665,3 +665,157 @@ Section Accept.
     unfold term_val. cbn [snd]. apply term_pow_bound. exact (proj1 (Hall nt K)).
   Qed.
 End Accept.
+
+(* ========================================================================== *)
+(** * Part D — everything the parser accepts is a string of the documented language *)
+Section Converse.
+  Context {T : Type} {NT : Num T}.
+
+  Lemma parse_unsigned_inv s (c : T) : parse_unsigned_dec s = Some c ->
+    exists d, wf_dec d = true /\ s = render_dec d /\ c = dec_val d.
+  Proof.
+    unfold parse_unsigned_dec. pose proof (join_split c_dot s) as J.
+    destruct (split_on c_dot s) as [|ip [|fp [|? ?]]]; try discriminate.
+    - cbn [join flat_map] in J. rewrite app_nil_r in J.
+      destruct (all_digits ip && negb (Nat.eqb (length ip) 0)) eqn:E; [|discriminate].
+      intros H; injection H as <-. exists {| d_int := ip; d_frac := None |}.
+      unfold wf_dec, render_dec, dec_val; cbn [d_int d_frac]. rewrite app_nil_r. auto.
+    - cbn [join flat_map] in J. rewrite app_nil_r in J.
+      destruct (all_digits ip && all_digits fp && negb (Nat.eqb (length ip + length fp) 0)) eqn:E; [|discriminate].
+      intros H; injection H as <-. exists {| d_int := ip; d_frac := Some fp |}.
+      unfold wf_dec, render_dec, dec_val; cbn [d_int d_frac]. rewrite andb_assoc. auto.
+  Qed.
+
+  Lemma parse_dec_inv s (c : T) : parse_dec s = Some c ->
+    exists neg d, wf_dec d = true /\ s = sign_str neg ++ render_dec d /\ c = sgn neg (dec_val d).
+  Proof.
+    destruct s as [|ch s']; [discriminate|]. unfold parse_dec.
+    destruct (N.eqb_spec ch c_minus) as [->|Hn].
+    - destruct (parse_unsigned_dec s') as [c'|] eqn:E; cbn [option_map]; [|discriminate].
+      intros H; injection H as <-. destruct (parse_unsigned_inv _ _ E) as (d & Hw & -> & ->).
+      exists true, d. auto.
+    - intros H. destruct (parse_unsigned_inv _ _ H) as (d & Hw & Hs & ->).
+      exists false, d. auto.
+  Qed.
+
+  Lemma coeff_of_inv cs (c : T) : ~ In c_plus cs -> coeff_of cs = Ok c ->
+    exists neg co, opt_dec_wf co = true /\ cs = sign_str neg ++ opt_dec_str co /\ c = sgn neg (opt_dec_val co).
+  Proof.
+    assert (Hpd : forall s, match parse_dec s with Some c0 => Ok c0 | None => Err EInvalidCoefficient end = Ok c ->
+              exists neg co, opt_dec_wf co = true /\ s = sign_str neg ++ opt_dec_str co /\ c = sgn neg (opt_dec_val co)).
+    { intros s H. destruct (parse_dec s) as [c0|] eqn:E; [|discriminate]. injection H as ->.
+      destruct (parse_dec_inv _ _ E) as (neg & d & Hw & Hs & Hc). exists neg, (Some d). auto. }
+    intros Hnp. destruct cs as [|c1 [|c2 r]]; unfold coeff_of.
+    - intros H; injection H as <-. exists false, None. auto.
+    - destruct (N.eqb_spec c1 c_plus) as [->|_]; [exfalso; apply Hnp; left; reflexivity|].
+      destruct (N.eqb_spec c1 c_minus) as [->|_]; [|apply Hpd].
+      intros H; injection H as <-. exists true, None. auto.
+    - apply Hpd.
+  Qed.
+
+  (* one accepted part is the text of a well-formed signed term, read at its value *)
+  Lemma simple_term_inv var v p ck : ~ In c_plus p -> var = Some v \/ var = None ->
+    simple_term var p = Ok ck ->
+    exists nt, wf_term (snd nt) = true /\ p = part v nt /\ ck = @term_val T NT nt /\
+               (var = None -> is_var (snd nt) = false).
+  Proof.
+    intros Hnp Hvar. rewrite simple_term_eq.
+    assert (Hc : const_of p = Ok ck ->
+                 exists nt, wf_term (snd nt) = true /\ p = part v nt /\ ck = @term_val T NT nt /\
+                            (var = None -> is_var (snd nt) = false)).
+    { intros H. apply const_of_inv in H. destruct H as (c & Hp & ->).
+      destruct (parse_dec_inv _ _ Hp) as (neg & d & Hw & -> & ->).
+      exists (neg, UConst d). cbn [snd wf_term is_var]. auto. }
+    destruct Hvar as [-> | ->]; [|exact Hc].
+    destruct (find_char v p) as [x|] eqn:Ef; [|exact Hc].
+    destruct (find_char_some _ _ _ Ef) as (a & b & -> & Ha & <-).
+    rewrite firstn_len_app, skipn_S_len_app.
+    destruct (coeff_of a) as [c|e|w] eqn:Ec; try discriminate.
+    intros H. apply coeff_of_inv in Ec; [|intros K; apply Hnp; apply in_app_iff; left; exact K].
+    destruct Ec as (neg & co & Hco & -> & ->).
+    apply after_var_inv in H.
+    assert (He : exists e, match e with None => true | Some ds => wf_exp ds end = true /\
+                           b = match e with None => [] | Some ds => c_caret :: ds end /\
+                           ck = (sgn neg (opt_dec_val co), @term_pow (UVar None e))).
+    { destruct H as [[-> ->]|(ds & -> & Hw & ->)]; [exists None|exists (Some ds)]; auto. }
+    destruct He as (e & Hwe & -> & ->).
+    exists (neg, UVar co e). cbn [snd wf_term is_var]. repeat split.
+    - unfold opt_dec_wf in Hco. rewrite Hco, Hwe. reflexivity.
+    - unfold part, opt_dec_str. cbn [fst snd render_term]. rewrite <- !app_assoc. reflexivity.
+    - unfold term_val. cbn [fst snd term_coef term_pow]. destruct co; reflexivity.
+    - discriminate.
+  Qed.
+
+  Lemma terms_inv var v parts terms :
+    Forall (fun p => ~ In c_plus p) parts -> var = Some v \/ var = None ->
+    mapM (simple_term var) parts = Ok terms ->
+    exists src : usrc, wf_src src = true /\ map (part v) src = parts /\ terms = @terms_of T NT src /\
+                       (var = None -> uses_var src = false).
+  Proof.
+    intros Hall Hvar. revert terms. induction Hall as [|p parts Hp Hall IH]; intros terms H; cbn [mapM] in H.
+    - injection H as <-. exists []. auto.
+    - destruct (simple_term var p) as [ck|e|w] eqn:E1; cbn [bind] in H; try discriminate.
+      destruct (mapM (simple_term var) parts) as [cks|e|w] eqn:E2; cbn [bind] in H; try discriminate.
+      injection H as <-.
+      destruct (simple_term_inv var v p ck Hp Hvar E1) as (nt & Hw & -> & -> & Hn).
+      destruct (IH cks eq_refl) as (src & Hws & <- & -> & Hns).
+      exists (nt :: src). cbn [wf_src forallb map uses_var existsb terms_of]. repeat split.
+      + rewrite Hw. exact Hws.
+      + intros K. rewrite (Hn K). exact (Hns K).
+  Qed.
+
+  (* ---- C16 (simple parser): acceptance is contained in the documented language.
+     The only accepted text that is not a non-empty rendering is the EMPTY text
+     (after stripping), which is read as the constant 0 (lemma simple_empty). ---- *)
+  Theorem simple_accepts_only_grammar (U : UClass) : USane U ->
+    forall (s : str) (p : spoly T), parse_simple U s = Ok p ->
+    strip_ws s = [] \/
+    exists (lead : bool) (v : N) (src : usrc),
+      src <> [] /\ wf_src src = true /\ (uses_var src = true -> u_alphabetic U v = true) /\
+      strip_ws s = render lead v src.
+  Proof.
+    intros HU s p. unfold parse_simple. cbv zeta.
+    set (t := strip_ws s). set (nz := minus_to_plusminus t).
+    destruct (existsb bad_part _) eqn:Eb; [discriminate|].
+    destruct (mapM _ _) as [terms|e|w] eqn:Em; try discriminate. intros _.
+    (* the variable, or a dummy *)
+    set (var := find_pred (u_alphabetic U) nz) in *.
+    assert (Hv : exists v, (var = Some v \/ var = None) /\ (var <> None -> u_alphabetic U v = true)).
+    { destruct var as [v0|] eqn:Ev.
+      - exists v0. split; [left; reflexivity|]. intros _. exact (proj2 (find_pred_some _ _ _ Ev)).
+      - exists 0%N. split; [right; reflexivity|]. intros K; contradiction. }
+    destruct Hv as (v & Hvar & Halpha).
+    pose proof (split_on_pieces c_plus nz) as Hpieces.
+    pose proof (join_split c_plus nz) as J.
+    pose proof (split_on_nonempty c_plus nz) as Hne.
+    assert (Hdrop : Forall (fun p => ~ In c_plus p) (drop_leading_empty (split_on c_plus nz))).
+    { destruct (split_on c_plus nz) as [|[|? ?] ?]; cbn [drop_leading_empty]; try exact Hpieces.
+      inversion Hpieces; assumption. }
+    destruct (terms_inv var v _ terms Hdrop Hvar Em) as (src & Hw & Hparts & _ & Hnone).
+    assert (Hcond : uses_var src = true -> u_alphabetic U v = true).
+    { intros K. apply Halpha. intros K2. rewrite (Hnone K2) in K. discriminate. }
+    assert (Hok : uses_var src = true -> okv v) by (intros K; exact (usane_okv U v HU (Hcond K))).
+    pose proof (no_minus_src v src Hw Hok) as Hall.
+    assert (Hnm : forall nt, In nt src -> ~ In c_minus (render_term v (snd nt))).
+    { intros nt K. destruct (Hall nt K) as [H1 H2]. exact (render_term_no_sign v _ c_minus H1 H2 (or_intror eq_refl)). }
+    destruct (split_on c_plus nz) as [|p0 P'] eqn:EP; [contradiction|].
+    destruct p0 as [|ch p0'].
+    - (* the text starts with '+' or '-' (or is empty) *)
+      cbn [drop_leading_empty] in Hparts. cbn [join app] in J.
+      destruct src as [|[neg t0] rest].
+      + left. cbn [map] in Hparts. subst P'. cbn [flat_map] in J.
+        apply (m2pm_inj t []). symmetry. exact J.
+      + right. exists true, v, ((neg, t0) :: rest). repeat split; try assumption; [discriminate|].
+        apply m2pm_inj. rewrite render_norm by exact Hnm. rewrite orb_true_r.
+        fold nz. rewrite <- J, <- Hparts. reflexivity.
+    - cbn [drop_leading_empty] in Hparts.
+      destruct src as [|[neg t0] rest]; [discriminate|].
+      right. exists false, v, ((neg, t0) :: rest). repeat split; try assumption; [discriminate|].
+      apply m2pm_inj. rewrite render_norm by exact Hnm. rewrite orb_false_r.
+      fold nz. rewrite <- J, <- Hparts.
+      destruct neg; [|reflexivity].
+      exfalso. cbn [map] in Hparts. injection Hparts as Hp0 _.
+      unfold part in Hp0. cbn [fst snd sign_str app] in Hp0. injection Hp0 as <- _.
+      cbn [join app] in J. exact (m2pm_head_not_minus t _ (eq_sym J)).
+  Qed.
+End Converse.
